@@ -514,6 +514,26 @@ func (e *Engine) instrMods(fn *ssa.Function, ins ssa.Instruction, out map[string
 }
 
 // loopMods: what the body of loop li may modify, including locals of the current frame.
+// allocBase: the allocation instruction an address is derived from (through field and index selections), if any.
+func allocBase(v ssa.Value) ssa.Instruction {
+	for {
+		switch a := v.(type) {
+		case *ssa.FieldAddr:
+			v = a.X
+		case *ssa.IndexAddr:
+			v = a.X
+		case *ssa.Alloc:
+			return a
+		case *ssa.MakeSlice:
+			return a
+		case *ssa.Slice:
+			v = a.X
+		default:
+			return nil
+		}
+	}
+}
+
 func (e *Engine) loopMods(f *Frame, li *loopInfo) map[string]bool {
 	out := map[string]bool{}
 	local := func(a *ssa.Alloc) {
@@ -524,6 +544,18 @@ func (e *Engine) loopMods(f *Frame, li *loopInfo) map[string]bool {
 	for b := range li.body {
 		for _, ins := range b.Instrs {
 			e.instrMods(f.fn, ins, out, local, 0)
+			// a store through an allocation made OUTSIDE the loop changes memory that exists at the loop head:
+			// "only new objects change" holds for callers of a function, not for the iterations of a loop
+			if st, ok := ins.(*ssa.Store); ok {
+				if os.Getenv("WV_DEBUG") != "" {
+					fmt.Fprintf(os.Stderr, "loopMods store %s base=%v\n", st.Addr.String(), allocBase(st.Addr))
+				}
+				if base := allocBase(st.Addr); base != nil && !li.body[base.Block()] {
+					r := e.rootOf(st.Addr)
+					r.fresh = false
+					e.storeModsRoot(r, out, local)
+				}
+			}
 			if nx, ok := ins.(*ssa.Next); ok {
 				if key, ok := f.ranges[nx.Iter]; ok {
 					out[key] = true
